@@ -16,6 +16,9 @@ Hypothesis HCond : forall c a b, P c -> P a -> P b -> P (ECond c a b).
 Hypothesis HArr : forall es, Forall P es -> P (EArr es).
 Hypothesis HAt : forall a i, P a -> P i -> P (EAt a i).
 Hypothesis HLen : forall a, P a -> P (ELen a).
+Hypothesis HStr1 : forall o a, P a -> P (EStr1 o a).
+Hypothesis HStr2 : forall o a b, P a -> P b -> P (EStr2 o a b).
+Hypothesis HSubstr : forall a b c, P a -> P b -> P c -> P (ESubstr a b c).
 Fixpoint expr_ind3 (e : expr) : P e :=
   match e with
   | ENum z => HNum z | EBool b => HBool b | EStr s => HStr s | EVar x => HVar x
@@ -30,5 +33,8 @@ Fixpoint expr_ind3 (e : expr) : P e :=
                   match l with [] => Forall_nil P | a :: r => Forall_cons a (expr_ind3 a) (go r) end) es)
   | EAt a i => HAt a i (expr_ind3 a) (expr_ind3 i)
   | ELen a => HLen a (expr_ind3 a)
+  | EStr1 o a => HStr1 o a (expr_ind3 a)
+  | EStr2 o a b => HStr2 o a b (expr_ind3 a) (expr_ind3 b)
+  | ESubstr a b c => HSubstr a b c (expr_ind3 a) (expr_ind3 b) (expr_ind3 c)
   end.
 End ExprInd.
